@@ -68,7 +68,7 @@ Open == /\ Is("open") /\ ~Has(Ev.h)
                       list |-> (CASE Ev.t = "pt" -> Virtual(L, vp)
                                   [] Ev.t = "rd" -> VFrags(FD)
                                   [] Ev.t = "rk" -> VFrags(FK)),
-                      it |-> (IF Ev.t = "pt" THEN NewIt(Ev.lo, Ev.hi) ELSE NewFt)])
+                      it |-> (IF Ev.t = "pt" THEN NewItV(Ev.lo, Ev.hi, vp) ELSE NewFt)])
         /\ UNCHANGED <<L, FD, FK, vp, exp>>
 Close == /\ Is("close") /\ Has(Ev.h)
          /\ hs' = [x \in DOMAIN hs \ {Ev.h} |-> hs[x]]
